@@ -39,12 +39,20 @@ void tickit_bindings_run_event(struct TickitBindings *bindings, void *owner, int
   for(struct TickitBinding *bind = bindings->first; bind; bind = bind->next)
     if(bind->evindex == evindex) {
       TickitEventFlags flags = TICKIT_EV_FIRE;
+      TickitEventFn *fn = bind->fn;
+      void *data = bind->data;
       if(bind->flags & TICKIT_BIND_ONESHOT) {
         flags |= TICKIT_EV_UNBIND;
+        /* Fully unbind it before it runs, so that it cannot be invoked a
+         * second time if the handler itself causes this event again
+         */
         bind->id = BINDING_ID_TOMBSTONE;
+        bind->evindex = -1;
+        bind->flags = 0;
+        bind->fn = NULL;
         bindings->needs_delete = true;
       }
-      (*bind->fn)(owner, flags, info, bind->data);
+      (*fn)(owner, flags, info, data);
       /* TODO: if !was_iterating then actually we can just splice it out of
        * the chain and free() it now.
        */
